@@ -164,6 +164,9 @@ func (nr *nativeRunner) build() {
 	t0 := time.Now()
 	defer func() { nr.buildDur = time.Since(t0) }()
 	cache := filepath.Join(verifDir, ".cache", "replay"+cacheTag, nr.spec.Property+"_"+strings.ReplaceAll(strings.TrimPrefix(nr.unit.Package, modulePath), "/", "_"))
+	if nr.unit.Sched {
+		cache += "_sched"
+	}
 	os.MkdirAll(cache, 0o755)
 	pd := pkgDir(nr.unit.Package)
 	repl := map[string]string{filepath.Join(repoDir, "internal/zzverifrt/rt.go"): filepath.Join(verifDir, "support/zzverifrt/rt.go")}
@@ -649,6 +652,13 @@ func cmdCheck(args []string) int {
 						msg := fmt.Sprintf("ENGINE-MISMATCH %s: symbolic %s %q not reproduced natively (native: %s %s)", es.Name, v.Kind, v.Label, out.Status, trunc(out.Detail, 300))
 						fmt.Println(msg)
 						notes = append(notes, msg)
+						if ee.Mismatches <= 3 {
+							// kept for inspection only (never under replays/, never a VIOLATION)
+							mb, _ := json.MarshalIndent(rf, "", " ")
+							md := filepath.Join(outDir(), ".cache", "mismatch")
+							os.MkdirAll(md, 0o755)
+							os.WriteFile(filepath.Join(md, fmt.Sprintf("%s-%s-%d.json", prop, es.Name, ee.Mismatches)), mb, 0o644)
+						}
 						continue
 					}
 					ee.Confirmed++
@@ -844,6 +854,13 @@ func cmdReplay(args []string) int {
 	for ui := range spec.Units {
 		u := &spec.Units[ui]
 		if u.Package != rf.Package {
+			continue
+		}
+		has := false
+		for _, e := range u.Entries {
+			has = has || e.Name == rf.Entry
+		}
+		if !has {
 			continue
 		}
 		nr := &nativeRunner{spec: &spec, unit: u, specDir: specDir}
